@@ -366,7 +366,7 @@ HARNESSES = [
     H('h20_2_index_entry', h_index_entry, _index_instances, expect=('corrupt', 'cantunwind', 'compact', 'generic'),
       desc='EHABIInfo.get_entry with word0/word1 and table words symbolic: kind, function offset (prel31), personality, byte-code bytes in order, eh_table_offset',
       bounds={'all': '1-2 index entries, up to 3 table words, section offset 0/8/16, both byte orders'}),
-    H('h20_1_attributes', h_attributes, _attr_instances, expect=('ok',),
+    H('h20_1_attributes', h_attributes, _attr_instances, decoy='all', expect=('ok',),
       desc='ARM/RISC-V attributes sections: 1-3 vendor subsections x 1-3 sub-subsections x 0-2 attributes of every kind (uleb, NTBS, compatibility, '
            'also-compatible-with, section/symbol number lists); tag within its kind class, values, strings, numbers symbolic',
       bounds={'all': 'uleb 1..2(3) bytes, strings 0..2(3) chars'}),
